@@ -296,9 +296,10 @@ func (s *session) SignalDisconnect(pkt *mqttp.Disconnect) error {
 			}
 		}
 
-		// only a VALID DISCONNECT (and not "disconnect with will message", 0x04) discards the Will: one
-		// that is a protocol error ends the connection abnormally
-		if err == nil && pkt.ReasonCode() != mqttp.CodeRefusedBadUsernameOrPassword {
+		// only a VALID and NORMAL DISCONNECT (reason 0x00) discards the Will: one that is a protocol
+		// error ends the connection abnormally, and with any other reason ("disconnect with will
+		// message", 0x04, or an error the client reports) the client has not withdrawn it
+		if err == nil && pkt.ReasonCode() == mqttp.CodeSuccess {
 			s.will = nil
 		}
 	} else {
